@@ -240,3 +240,14 @@ Definition periodogram (dft : list (Q * Q)) : list (Q * Q) :=
     (map (fun jc => (natQ (fst jc) / natQ n,
                      Qred ((fst (snd jc) * fst (snd jc) + snd (snd jc) * snd (snd jc)) / natQ n)))
          (combine (seq 0 n) dft)).
+
+(* ------------------------------------------------------------------ specification vocabulary
+   (plain exact sums used in the statements of the theorems; not part of the executable model) *)
+Fixpoint sum_list (l : list Q) : Q := match l with [] => 0 | x :: r => x + sum_list r end.
+(* sum_{i=1..j} phi_i psi_{j-i}  (phi_i = 0 beyond the AR order) *)
+Definition arsum (phi psi : list Q) (j : nat) : Q :=
+  sum_list (map (fun i => getQ phi (i - 1) * getQ psi (j - i)) (seq 1 j)).
+(* mean absolute difference and mean *)
+Definition mad (y : list Q) : Q :=
+  sum_list (map (fun yi => sum_list (map (fun yj => Qabs (yi - yj)) y)) y) / (natQ (length y) * natQ (length y)).
+Definition mean (y : list Q) : Q := sum_list y / natQ (length y).
